@@ -125,17 +125,41 @@ fn enc_get(r: &mut Rng, l: &Logical, with_op: bool) -> String {
         .join("&")
 }
 
-fn enc_multipart(r: &mut Rng, operations: &str) -> (String, Vec<u8>) {
+/// `Content-Type` header of the `operations` part. JSON text is UTF-8 by definition
+/// (RFC 8259 section 8.1); a `charset` parameter on the part does not change the bytes.
+fn gen_ops_part_ct(r: &mut Rng) -> Option<&'static str> {
+    match r.below(8) {
+        0 | 1 => None,
+        2 => Some("application/json"),
+        3 => Some("application/json; charset=utf-8"),
+        4 | 5 => Some("application/json; charset=iso-8859-1"),
+        6 => Some("application/json; charset=utf-16"),
+        _ => Some(*r.pick(&[
+            "application/json;charset=ISO-8859-1",
+            "application/json; charset=\"latin1\"",
+            "application/json; charset=windows-1252",
+            "application/json; charset=utf-16le",
+            "application/json; charset=utf-16be",
+            "application/json; charset=shift_jis",
+            "application/json; charset=us-ascii",
+        ])),
+    }
+}
+
+fn foreign_charset(ct: Option<&str>) -> bool {
+    ct.is_some_and(|c| c.contains("charset") && !c.to_ascii_lowercase().contains("utf-8"))
+}
+
+/// multipart/form-data body whose `operations` part holds exactly `operations` (bytes).
+fn enc_multipart_raw(r: &mut Rng, operations: &[u8], part_ct: Option<&str>) -> (String, Vec<u8>) {
     let boundary = loop {
         let b = gen_boundary(r);
-        if !operations.contains(&b) {
+        if find(operations, b.as_bytes(), 0).is_none() {
             break b;
         }
     };
-    let mut ops = Part::field("operations", operations.as_bytes().to_vec());
-    if r.bool() {
-        ops.content_type = Some("application/json".into());
-    }
+    let mut ops = Part::field("operations", operations.to_vec());
+    ops.content_type = part_ct.map(|s| s.to_string());
     let map = Part::field("map", if r.bool() { b"{}".to_vec() } else { b" { } ".to_vec() });
     let body = encode_multipart(&boundary, &[ops, map]);
     let ct = match r.below(3) {
@@ -145,6 +169,57 @@ fn enc_multipart(r: &mut Rng, operations: &str) -> (String, Vec<u8>) {
     };
     (ct, body)
 }
+
+fn enc_multipart(r: &mut Rng, operations: &str) -> (String, Vec<u8>) {
+    let part_ct = gen_ops_part_ct(r);
+    enc_multipart_raw(r, operations.as_bytes(), part_ct)
+}
+
+/// Byte offsets of `text` (JSON) that lie inside a string literal at a character boundary
+/// (after the opening quote or after a complete character / escape sequence).
+fn in_string_offsets(text: &str) -> Vec<usize> {
+    let b = text.as_bytes();
+    let mut out = vec![];
+    let mut in_str = false;
+    let mut i = 0;
+    while i < b.len() {
+        if !in_str {
+            if b[i] == b'"' {
+                in_str = true;
+                out.push(i + 1);
+            }
+            i += 1;
+        } else if b[i] == b'\\' {
+            i += if b.get(i + 1) == Some(&b'u') { 6 } else { 2 };
+            out.push(i);
+        } else if b[i] == b'"' {
+            in_str = false;
+            i += 1;
+        } else {
+            i += 1;
+            while i < b.len() && (b[i] & 0xC0) == 0x80 {
+                i += 1;
+            }
+            out.push(i);
+        }
+    }
+    out
+}
+
+/// Byte sequences that are not UTF-8: lone continuation / lead bytes, truncated sequences,
+/// overlong forms, an encoded surrogate, code points above U+10FFFF, Latin-1 text.
+const BAD_UTF8: [&[u8]; 10] = [
+    b"\xff",
+    b"\x80",
+    b"\xc3\x28",
+    b"\xe2\x82",
+    b"\xc0\xaf",
+    b"\xed\xa0\x80",
+    b"\xf4\x90\x80\x80",
+    b"\xf0\x9f\x98",
+    b"caf\xe9",
+    b"\xfe\xff",
+];
 
 fn json_ct(r: &mut Rng) -> Option<&'static str> {
     *r.pick(&[
@@ -178,8 +253,9 @@ fn observe_batch(b: &BatchRequest) -> J {
     }
 }
 
-fn check_decoding(run: &Run, form: &str, l: &Logical, expect: &J, encoded: &[u8], got: Decoded) {
+fn check_decoding(run: &Run, form: &str, l: &Logical, expect: &J, encoded: &[u8], got: Decoded) -> bool {
     run.eval();
+    let mut equal = false;
     let sig = || format!("decode-{form}:{:x}", rng::hash_bytes(encoded));
     let replay = || json!({"form": form, "logical": l.to_json(), "encoded": lossy(encoded, 4000), "encoded_hex": hex(&encoded[..encoded.len().min(2000)])});
     match got {
@@ -192,6 +268,7 @@ fn check_decoding(run: &Run, form: &str, l: &Logical, expect: &J, encoded: &[u8]
         Ok(Ok(obs)) => {
             if &obs == expect {
                 run.count(&format!("decoded_equal_{form}"), 1);
+                equal = true;
             } else {
                 let mut diff = vec![];
                 for k in ["query", "operationName", "variables", "extensions"] {
@@ -207,6 +284,7 @@ fn check_decoding(run: &Run, form: &str, l: &Logical, expect: &J, encoded: &[u8]
             }
         }
     }
+    equal
 }
 
 fn decode_round(run: &Run, r: &mut Rng, get_op: bool) {
@@ -246,10 +324,50 @@ fn decode_round(run: &Run, r: &mut Rng, get_op: bool) {
 
     // D4 multipart operations
     let text = enc_json(r, &l);
-    let (ct, body) = enc_multipart(r, &text);
+    let part_ct = gen_ops_part_ct(r);
+    let (ct, body) = enc_multipart_raw(r, text.as_bytes(), part_ct);
     let got = dec_single_body(Some(&ct), body.clone(), gen_chunk(r));
-    check_decoding(run, "multipart", &l, &expect, &body, got);
+    let equal = check_decoding(run, "multipart", &l, &expect, &body, got);
+    if foreign_charset(part_ct) && equal {
+        // the part declares a charset other than UTF-8 while the JSON text is UTF-8
+        run.count("multipart_operations_with_foreign_charset_param_decoded_equal", 1);
+        if !text.is_ascii() {
+            run.count("multipart_foreign_charset_param_with_raw_non_ascii_decoded_equal", 1);
+        }
+        run.seen("operations_part_content_types", part_ct.unwrap_or("<none>"));
+    }
     run.sample_upto(10, json!({"content_type": ct, "multipart_body": lossy(&body, 600)}));
+
+    // D4': a byte order mark in front of the JSON text. No rule is invented: whatever the JSON
+    // body decoder does with these bytes, the multipart operations part must do the same.
+    if r.chance(1, 8) {
+        let mut bytes = b"\xef\xbb\xbf".to_vec();
+        bytes.extend_from_slice(enc_json(r, &l).as_bytes());
+        let as_json = dec_single_body(json_ct(r), bytes.clone(), gen_chunk(r));
+        let part_ct = gen_ops_part_ct(r);
+        let (ct, body) = enc_multipart_raw(r, &bytes, part_ct);
+        let as_part = dec_single_body(Some(&ct), body.clone(), gen_chunk(r));
+        run.eval();
+        let class = |d: &Decoded| match d {
+            Ok(Ok(o)) => format!("accepted as {o}"),
+            Ok(Err(_)) => "rejected".to_string(),
+            Err(p) => format!("panic {p}"),
+        };
+        let (a, b) = (class(&as_json), class(&as_part));
+        if a == b && !a.starts_with("panic") {
+            run.count("bom_same_outcome_json_body_and_multipart_part", 1);
+            run.seen("bom_outcomes", if a == "rejected" { "rejected in both forms" } else { "accepted (equal requests) in both forms" });
+        } else {
+            run.violation(
+                &format!("decode-bom:{:x}", rng::hash_bytes(&body)),
+                &format!(
+                    "JSON text with a leading UTF-8 byte order mark: as a JSON body it is {a}, as the multipart operations part (part Content-Type {part_ct:?}) it is {b}; encoded={}",
+                    lossy(&body, 400)
+                ),
+                json!({"form": "multipart-bom", "logical": l.to_json(), "json_bytes_hex": hex(&bytes[..bytes.len().min(2000)]), "part_content_type": part_ct, "encoded_hex": hex(&body[..body.len().min(2000)])}),
+            );
+        }
+    }
 }
 
 fn batch_round(run: &Run, r: &mut Rng) {
@@ -320,12 +438,13 @@ fn batch_round(run: &Run, r: &mut Rng) {
 
 // ---------- malformed variants ----------
 
-fn expect_reject(run: &Run, class: &str, input: &[u8], got: Result<Result<J, String>, String>) {
+fn expect_reject(run: &Run, class: &str, input: &[u8], got: Result<Result<J, String>, String>) -> bool {
     run.eval();
     match got {
         Ok(Err(_)) => {
             run.count("malformed_rejected", 1);
             run.seen("malformed_classes_rejected", class);
+            return true;
         }
         Ok(Ok(obs)) => run.violation(
             &format!("malformed-{class}:{:x}", rng::hash_bytes(input)),
@@ -338,6 +457,7 @@ fn expect_reject(run: &Run, class: &str, input: &[u8], got: Result<Result<J, Str
             json!({"class": class, "input": lossy(input, 4000)}),
         ),
     }
+    false
 }
 
 fn observe_only(run: &Run, class: &str, got: Result<Result<J, String>, String>, sample: J) {
@@ -389,7 +509,33 @@ fn invalid_json_text(r: &mut Rng) -> String {
 
 fn malformed_round(run: &Run, r: &mut Rng, array_single: bool) {
     let l = gen_logical(r);
-    match r.below(12) {
+    match r.below(13) {
+        12 => {
+            // bytes that are not UTF-8 inside a string of the JSON text: JSON text is UTF-8 (RFC 8259 8.1);
+            // oracle: the harness-side serde_json and str::from_utf8 both refuse the bytes
+            let good = enc_json(r, &l);
+            let offs = in_string_offsets(&good);
+            if offs.is_empty() {
+                return;
+            }
+            let at = *r.pick(&offs);
+            let bad_seq = *r.pick(&BAD_UTF8);
+            let mut bad = good.as_bytes()[..at].to_vec();
+            bad.extend_from_slice(bad_seq);
+            bad.extend_from_slice(&good.as_bytes()[at..]);
+            if std::str::from_utf8(&bad).is_ok() || serde_json::from_slice::<J>(&bad).is_ok() {
+                return;
+            }
+            // the same bytes in both transport forms
+            let got = if r.bool() { dec_single_body(json_ct(r), bad.clone(), gen_chunk(r)) } else { dec_any_batch(json_ct(r), bad.clone()) };
+            expect_reject(run, "json-body-invalid-utf8", &bad, got);
+            let part_ct = gen_ops_part_ct(r);
+            let (ct, body) = enc_multipart_raw(r, &bad, part_ct);
+            let got = if r.bool() { dec_single_body(Some(&ct), body.clone(), gen_chunk(r)) } else { dec_any_batch(Some(&ct), body.clone()) };
+            if expect_reject(run, "multipart-operations-invalid-utf8", &body, got) {
+                run.count("multipart_operations_invalid_utf8_rejected", 1);
+            }
+        }
         0 => {
             // JSON body that is not JSON (oracle: serde_json on the harness side refuses it)
             let good = enc_json(r, &l);
@@ -793,6 +939,7 @@ pub fn main() {
          (batch text, schedule); non-trivial = query needs escaping or variables/extensions non-empty",
     );
     run.assume("serde_json on the harness side defines what is (in)valid JSON and JSON value equality (objects as maps, number kinds kept)");
+    run.assume("JSON text is UTF-8 (RFC 8259 8.1): a charset parameter on the multipart operations part does not re-interpret its bytes; bytes that are not UTF-8 inside the JSON text are malformed in every transport form; for a leading byte order mark only equality of the two decoders' outcomes (JSON body vs operations part) is asserted");
     run.assume("malformed = not JSON where JSON is required, wrong JSON type of a member, empty body/batch, unparsable media type, multipart without boundary/operations, declared and actual body encoding disagree");
     run.assume("NOT judged (counted only): invalid %-sequences and non-UTF-8 percent bytes in a query string (the WHATWG urlencoded parser keeps/replaces them by design), a non-JSON media type such as text/plain carrying a JSON body, the single-request API given an array");
     run.set_floors(2000, 500);
@@ -803,6 +950,9 @@ pub fn main() {
     run.require_counter("batch_responses_in_request_order");
     run.require_counter("batches_completed_in_exact_reverse_order");
     run.require_counter("malformed_rejected");
+    run.require_counter("multipart_foreign_charset_param_with_raw_non_ascii_decoded_equal");
+    run.require_counter("multipart_operations_invalid_utf8_rejected");
+    run.require_counter("bom_same_outcome_json_body_and_multipart_part");
 
     let get_op = run.feature("get_operation_name");
     let array_single = run.feature("array_body_as_single_request");
